@@ -116,9 +116,10 @@ func (b *Block) setMiningBlob(m MiningBlob) error {
 	b.OtherChains = make([]HashingID, 0)
 	containsNetworkID := false
 	var lastNetworkId uint64 = 0
-	for _, v := range m.Chains {
+	for i, v := range m.Chains {
 		if v.NetworkID != config.NETWORK_ID {
-			if v.NetworkID <= lastNetworkId {
+			// the first chain has no predecessor to compare with (0 is a valid network id)
+			if i > 0 && v.NetworkID <= lastNetworkId {
 				return fmt.Errorf("mining blob is not sorted correctly")
 			}
 			for _, oc := range b.OtherChains {
